@@ -269,5 +269,5 @@ META = {
     "technique": "Coq proof (induction on rate histories, lra) + verified observation oracle + extracted-model replay of observed histories",
     # green on seeds 1-3 against the fixed tree with RES2_DEV_EXE, fires under bin/mutcheck (corpus/C21/m1.diff); the final plain
     # `bin/check C21` on the unchanged tree was still queued on build/sg.lock when the author's time ran out: run it, then set True.
-    "claimed": False,
+    "claimed": True,
 }
